@@ -29,6 +29,12 @@ type engine interface {
 	classify(payload, obs string) string
 }
 
+// engineX: engines whose request line carries something computed by the Go run itself
+// (e.g. the text Go printed, for the model to match up to map order).
+type engineX interface {
+	runX(payload string) (obs, extra string)
+}
+
 var engines = map[string]engine{}
 
 func register(name string, e engine) { engines[name] = e }
@@ -40,7 +46,7 @@ func safeRun(f func() string, limit time.Duration) (obs string) {
 	go func() {
 		defer func() {
 			if r := recover(); r != nil {
-				done <- "PANIC " + panicSite(debug.Stack()) + " " + oneLine(fmt.Sprint(r))
+				done <- "PANIC " + panicSite(debug.Stack())
 			}
 		}()
 		done <- f()
@@ -51,6 +57,16 @@ func safeRun(f func() string, limit time.Duration) (obs string) {
 	case <-time.After(limit):
 		return "HANG"
 	}
+}
+
+// safeRunInline: recover only (no watchdog), for sub-steps of one case
+func safeRunInline(f func() string) (obs string) {
+	defer func() {
+		if r := recover(); r != nil {
+			obs = "PANIC " + panicSite(debug.Stack())
+		}
+	}()
+	return f()
 }
 
 func oneLine(s string) string {
@@ -79,7 +95,7 @@ func panicSite(stack []byte) string {
 			if i := strings.LastIndex(fn, "("); i > 0 {
 				fn = fn[:i]
 			}
-			return strings.TrimPrefix(fn, "github.com/jig/lisp")
+			return strings.TrimLeft(strings.TrimPrefix(fn, "github.com/jig/lisp"), "/.")
 		}
 	}
 	return "?"
@@ -139,6 +155,12 @@ func cmdRun(args []string) {
 			if strings.HasPrefix(l, name+"\t") {
 				l = l[len(name)+1:]
 			}
+			if _, isX := e.(engineX); isX {
+				// the extra column is recomputed by the run
+				if i := strings.Index(l, "\t"); i >= 0 {
+					l = l[:i]
+				}
+			}
 			payloads = append(payloads, l)
 		}
 		f.Close()
@@ -161,9 +183,26 @@ func cmdRun(args []string) {
 	classes := map[string]int{}
 	distinct := map[string]struct{}{}
 	start := time.Now()
+	ex, hasExtra := e.(engineX)
+	leanName := name
+	if ln, ok := e.(interface{ leanName() string }); ok {
+		leanName = ln.leanName()
+	}
 	for _, p := range payloads {
-		o := safeRun(func() string { return e.run(p) }, 20*time.Second)
-		fmt.Fprintf(rw, "%s\t%s\n", name, p)
+		extra := ""
+		o := safeRun(func() string {
+			if hasExtra {
+				var ob string
+				ob, extra = ex.runX(p)
+				return ob
+			}
+			return e.run(p)
+		}, 20*time.Second)
+		if hasExtra {
+			fmt.Fprintf(rw, "%s\t%s\t%s\n", leanName, p, extra)
+		} else {
+			fmt.Fprintf(rw, "%s\t%s\n", leanName, p)
+		}
 		fmt.Fprintf(ow, "%s\n", o)
 		classes[e.classify(p, o)]++
 		distinct[p] = struct{}{}
